@@ -11,6 +11,7 @@ os.environ["REX_VERIF"] = "1"
 
 import jax, jax.numpy as jnp, numpy as onp
 from flax import struct
+from flax.core import FrozenDict
 from rex.base import Base, DelayDistribution
 from rex.node import BaseNode
 import rex.constants as const
@@ -103,7 +104,14 @@ class Probe(BaseNode):
             _host(self.name, ss.seq, tsq, ss.state.a[0], acc, rw[0], rw[1])
         sq = jnp.asarray(ss.seq, dtype=jnp.int32)
         fv = jnp.where(sq % 7 == 3, jnp.nan, jnp.where(sq % 11 == 5, jnp.inf, 0.25 * sq.astype(jnp.float32) + self.nid)).astype(jnp.float32).reshape(1)
-        return ss.replace(state=Out(acc.reshape(1), ss.state.f), rng=new_rng), Out(acc.reshape(1), fv)
+        new_ss = ss.replace(state=Out(acc.reshape(1), ss.state.f), rng=new_rng)
+        if getattr(self, "adaptive", False):
+            # a node that updates the delay models it carries in its own inputs (e.g. online delay estimation): the step state it RETURNS is what the
+            # next step must start from, whichever API path executed the step
+            ni = {k: (i.replace(delay_dist=i.delay_dist.replace(idx=i.delay_dist.idx + 1 + sq)) if hasattr(i.delay_dist, "idx") else i)
+                  for k, i in ss.inputs.items()}
+            new_ss = new_ss.replace(inputs=FrozenDict(ni) if isinstance(ss.inputs, FrozenDict) else ni)
+        return new_ss, Out(acc.reshape(1), fv)
 
 
 def build(cfg):
@@ -112,6 +120,7 @@ def build(cfg):
         N[n] = Probe(name=n, rate=64 // nd["period"], delay=nd["exp"] * T, delay_dist=TableDist.create(nd["delays"]),
                      advance=nd["advance"],
                      scheduling=const.Scheduling.FREQUENCY if nd["sched"] == "FREQ" else const.Scheduling.PHASE, nid=nd["nid"])
+        N[n].adaptive = bool(nd.get("adaptive", False))
     for c, cc in cfg["conns"].items():
         N[cc["in"]].connect(N[cc["out"]], blocking=cc["blocking"], delay=cc["exp"] * T, delay_dist=TableDist.create(cc["delays"]),
                             window=cc["window"], skip=cc["skip"],
